@@ -360,6 +360,48 @@ func newRegistry(c *Case) *fr.Registry {
 	return g
 }
 
+// opaqueReader is a caller-side content reader without a known length: short reads and,
+// for odd chunk sizes, the last bytes together with io.EOF.
+type opaqueReader struct {
+	b     []byte
+	chunk int
+}
+
+func (r *opaqueReader) Read(p []byte) (int, error) {
+	if len(r.b) == 0 {
+		return 0, io.EOF
+	}
+	n := len(p)
+	if n > r.chunk {
+		n = r.chunk
+	}
+	n = copy(p[:n], r.b)
+	r.b = r.b[n:]
+	if len(r.b) == 0 && r.chunk%2 == 1 && n > 0 {
+		return n, io.EOF
+	}
+	return n, nil
+}
+
+// contentReader: how the caller hands the content to Push.  When the descriptor's size is the
+// content's length the kind of reader must not matter (the model assumes a *bytes.Reader), so
+// it rotates deterministically: *bytes.Reader, io.NopCloser around one, an opaque reader.
+func contentReader(content []byte, d fr.Desc, salt int) io.Reader {
+	if int64(len(content)) != d.SZ {
+		return bytes.NewReader(content)
+	}
+	switch (salt + len(content)) % 3 {
+	case 1:
+		run.Count("reader:nopcloser")
+		return io.NopCloser(bytes.NewReader(content))
+	case 2:
+		run.Count("reader:opaque")
+		return &opaqueReader{b: append([]byte(nil), content...), chunk: 1 + (salt+len(content))%5}
+	}
+	run.Count("reader:bytes")
+	return bytes.NewReader(content)
+}
+
 func doOp(ctx context.Context, c *Case, repo *remote.Repository, o Op) (res opResult) {
 	fail := func(err error) opResult { return opResult{Str: errClass(err), Err: err} }
 	var content []byte
@@ -368,12 +410,12 @@ func doOp(ctx context.Context, c *Case, repo *remote.Repository, o Op) (res opRe
 	}
 	switch o.Kind {
 	case "push":
-		if err := repo.Push(ctx, od(o.D), bytes.NewReader(content)); err != nil {
+		if err := repo.Push(ctx, od(o.D), contentReader(content, o.D, len(o.D.MT))); err != nil {
 			return fail(err)
 		}
 		return opResult{Str: "ok"}
 	case "pushref":
-		if err := repo.PushReference(ctx, od(o.D), bytes.NewReader(content), o.S); err != nil {
+		if err := repo.PushReference(ctx, od(o.D), contentReader(content, o.D, len(o.S)), o.S); err != nil {
 			return fail(err)
 		}
 		return opResult{Str: "ok"}
